@@ -43,10 +43,9 @@ Theorem scan_sound : forall V fw fb present N E p, accepts E p = true ->
 Proof. exact determined. Qed.
 Print Assumptions scan_sound.
 
-(* 2b. the generated program of every configuration passes the scan with exactly the named exceptions:
-   "_internal_data" under reuse_internal_data, "hyd_flag" in mode heat (sol_vec is an argument).
-   The combination (heat, only_update_hydraulic_matrix, no reuse) is excluded: see design_notes/C12.md *)
-Theorem no_stale_read : forall x, In x all_progs -> cfg_of x <> heat_update_cfg ->
+(* 2b. the generated program of EVERY configuration passes the scan with exactly the named exceptions:
+   "_internal_data" under reuse_internal_data, "hyd_flag" in mode heat (sol_vec is an argument) *)
+Theorem no_stale_read : forall x, In x all_progs ->
   accepts (exceptions (cfg_of x)) (prog_of x) = true.
 Proof. exact accepted. Qed.
 Print Assumptions no_stale_read.
@@ -77,7 +76,6 @@ Proof.
     repeat (apply andb_true_iff in Hc; destruct Hc as [Hc ?]).
     apply String.eqb_eq in Hc. apply Bool.eqb_prop in H0. apply Bool.eqb_prop in H. subst. reflexivity. }
   rewrite <- HE, <- Heq. apply accepted; auto.
-  rewrite Heq. intros Hbad. rewrite Hbad in HE. discriminate.
 Qed.
 Print Assumptions history_independence.
 
@@ -100,7 +98,6 @@ Proof.
     repeat (apply andb_true_iff in Hc; destruct Hc as [Hc ?]).
     apply String.eqb_eq in Hc. apply Bool.eqb_prop in H0. apply Bool.eqb_prop in H. subst. reflexivity. }
   rewrite <- HE, <- Heq. apply accepted; auto.
-  rewrite Heq. intros Hbad. rewrite Hbad in HE. discriminate.
 Qed.
 Print Assumptions repeat_is_identical.
 
@@ -112,7 +109,7 @@ Print Assumptions results_are_produced.
 (* 5. mode heat (and the reuse option): after any two histories that lead to the same description and
    the same value of the excepted keys (hyd_flag; sol_vec is the argument kw), the call gives the same *)
 Theorem excepted_state_is_the_only_leak : forall V fw fb present N (h h' : list (op V)) (s0 s0' : key -> V) x kw,
-  In x all_progs -> cfg_of x <> heat_update_cfg ->
+  In x all_progs ->
   (forall k, In k (exceptions (cfg_of x)) ->
      after V fw fb present N all_progs h s0 k = after V fw fb present N all_progs h' s0' k) ->
   (forall k, is_user k = true ->
@@ -122,7 +119,7 @@ Theorem excepted_state_is_the_only_leak : forall V fw fb present N (h h' : list 
     (run V fw fb present N all_progs (cfg_of x) kw (after V fw fb present N all_progs h s0))
     (run V fw fb present N all_progs (cfg_of x) kw (after V fw fb present N all_progs h' s0')).
 Proof.
-  intros V fw fb present N h h' s0 s0' x kw Hx Hne HE HU.
+  intros V fw fb present N h h' s0 s0' x kw Hx HE HU.
   apply exception_lemma; [exact all_progs_frame | | exact HE | exact HU].
   destruct (lookup_in all_progs (cfg_of x)) as [y [Hy [Hc Hl]]].
   { exists x. split; auto. destruct (cfg_of x) as [[m u] r]. simpl.
@@ -132,9 +129,28 @@ Proof.
   { destruct (cfg_of y) as [[m u] r]. destruct (cfg_of x) as [[m' u'] r']. simpl in Hc.
     repeat (apply andb_true_iff in Hc; destruct Hc as [Hc ?]).
     apply String.eqb_eq in Hc. apply Bool.eqb_prop in H0. apply Bool.eqb_prop in H. subst. reflexivity. }
-  rewrite <- Heq. apply accepted; auto. rewrite Heq. exact Hne.
+  rewrite <- Heq. apply accepted; auto.
 Qed.
 Print Assumptions excepted_state_is_the_only_leak.
+
+(* 5b. the reuse exception is well-founded: a call without reuse_internal_data never leaves a cache of its
+   own in "_internal_data" - not when it returns and not when a stage gives up (the non-convergence raise of
+   hydraulics / bidirectional / heat_transfer); stated on the effect of the actual execution *)
+Theorem no_cache_left_behind : forall V fw fb present N x, In x all_progs -> snd (fst x) = false ->
+  forall (s : st V),
+    match exec V fw fb present N (prog_of x) s with
+    | Normal _ => peff V fw fb present N cache_key (prog_of x) s <> Written
+    | Aborted f _ => stage_failure f = true -> peff V fw fb present N cache_key (prog_of x) s <> Written
+    end.
+Proof.
+  intros V fw fb present N x Hx Hr s.
+  destruct (cache_clean_in x Hx Hr) as [H1 H2].
+  assert (G := eff_sound V fw fb present N cache_key stage_failure (prog_of x) s). unfold eff_ok in G.
+  destruct (exec V fw fb present N (prog_of x) s).
+  - intros E. rewrite E in G. simpl in G. congruence.
+  - intros Hd E. specialize (G Hd). rewrite E in G. simpl in G. congruence.
+Qed.
+Print Assumptions no_cache_left_behind.
 
 (* mode heat consists of the same set-up phases and the same thermal-stage program as mode sequential *)
 Theorem heat_from_stored_equals_sequential_stage : heat_tail_ok = true.
@@ -156,5 +172,7 @@ Example instances_nontrivial :
   accepts [] (Seq (IfComp 1 (Wr 0 "res_a")) (IfComp 1 (Rd 0 "res_a"))) = true /\
   accepts [] (Seq (IfComp 1 (Wr 0 "res_a")) (IfComp 2 (Rd 0 "res_a"))) = false /\
   accepts [] (Seq (Choice (Wr 0 "_x") Skip) (Rd 0 "_x")) = false /\
-  accepts [] (Seq (Loop (Wr 0 "_x")) (Rd 0 "_x")) = false.
+  accepts [] (Seq (Loop (Wr 0 "_x")) (Rd 0 "_x")) = false /\
+  eW (snd (eff "_c" (fun _ => true) (Seq (Wr 0 "_c") (Seq (Choice (Abort 1) Skip) (Del 0 "_c"))))) = true /\
+  eW (snd (eff "_c" (fun _ => true) (Seq (Wr 0 "_c") (Seq (Del 0 "_c") (Choice (Abort 1) Skip))))) = false.
 Proof. vm_compute. repeat split; auto. Qed.
